@@ -257,6 +257,33 @@ def check_op_management(rec, rng):
             rec.check(np.allclose(M, exp), 'renamed-fermions:term->MPO', 'differs from the fermionic operator (hard-core bosons?)', inp)
 
 
+def check_common_charges(rec):
+    """set_common_charges on sites with different conserved quantities, with and without sorting by charge: every site passes its own
+    sanity check afterwards, carries the requested charge values per basis state, and the operators are the same matrices (up to the
+    returned permutation)"""
+    from tenpy.networks import site as S
+    for sort_charge in (True, False):
+        f, s = S.FermionSite('N'), S.SpinHalfSite('Sz')
+        ops_before = [{n: x.get_op(n).to_ndarray().copy() for n in x.opnames} for x in (f, s)]
+        q_before = [x.leg.to_qflat()[:, 0].copy() for x in (f, s)]
+        inp = {'sites': 'FermionSite(N), SpinHalfSite(Sz)', 'new_charges': '[N, 2*Sz]', 'sort_charge': sort_charge}
+        rec.begin(f'C12 set_common_charges {inp}')
+        rec.case(('common-charges', sort_charge), True)
+        ok, perms = rec.guarded('set_common_charges:exception', lambda: S.set_common_charges([f, s], new_charges=[[(1, 0, 0)], [(1, 1, 0)]],
+                                                                                              new_names=['N', '2*Sz'], new_mod=[1, 1], sort_charge=sort_charge), inp)
+        if not ok:
+            continue
+        for k, x in enumerate((f, s)):
+            okk, _ = rec.guarded('set_common_charges:test_sanity', x.test_sanity, dict(inp, site=k))
+            perm = np.asarray(perms[k]) if (sort_charge and perms is not None) else np.arange(x.dim)
+            qf = x.leg.to_qflat()
+            exp = np.zeros((x.dim, 2), dtype=qf.dtype)
+            exp[:, k] = q_before[k][perm]
+            rec.check(np.array_equal(qf, exp), 'set_common_charges:charges', f'site {k}: {qf.tolist()} vs {exp.tolist()}', dict(inp, site=k))
+            for n, m in ops_before[k].items():
+                rec.check(np.allclose(x.get_op(n).to_ndarray(), m[np.ix_(perm, perm)]), 'set_common_charges:operator', f'site {k} op {n}', dict(inp, site=k))
+
+
 def check_car(rec, rng, quick):
     """canonical anticommutation relations of fermionic operators placed through the JW machinery"""
     from tenpy.networks import site as S
@@ -360,6 +387,7 @@ def run(rec):
         rec.case(('site', name), True, sample={'site': name} if name.startswith('FermionSite(N') else None)
     check_grouped(rec, rng)
     check_op_management(rec, rng)
+    check_common_charges(rec)
     check_car(rec, rng, quick)
     hetero_term_correlations(rec, rng, quick)
 
